@@ -703,10 +703,17 @@ func flagPredsR(g Guard, resolve bool) ([]*ssa.BasicBlock, []ssa.Value) {
 				continue
 			}
 			if !wantNonNil {
-				switch e.(type) {
+				switch ev := e.(type) {
 				case *ssa.MakeInterface, *ssa.Alloc, *ssa.MakeClosure:
 					sawConst = true
 					continue // never nil
+				case *ssa.Call:
+					if ErrCtor != nil {
+						if fresh, _ := ErrCtor(ev.Common()); fresh {
+							sawConst = true
+							continue // a freshly built error is never nil
+						}
+					}
 				}
 				if testedOnWay(blk.Preds[i], blk, e, true) {
 					sawConst = true
@@ -1035,7 +1042,6 @@ func SourcesWithGuards(v ssa.Value, at *ssa.BasicBlock) []GuardedSource {
 	return out
 }
 
-
 // InfeasibleEdges returns the CFG edges (as "from->to" block indices) that cannot lie on a path to block b
 // because a merged flag tested on the way to b was set differently on that way in.
 func InfeasibleEdges(b *ssa.BasicBlock) map[[2]*ssa.BasicBlock]bool {
@@ -1071,7 +1077,6 @@ func InfeasibleEdges(b *ssa.BasicBlock) map[[2]*ssa.BasicBlock]bool {
 	}
 	return out
 }
-
 
 // testedOnWay reports whether the way from block p into blk lies behind a nil test of e with the given outcome.
 func testedOnWay(p, blk *ssa.BasicBlock, e ssa.Value, nonNil bool) bool {
